@@ -20,10 +20,11 @@ CONFIG = dict(
         dict(name="c20_second_direction_registers_its_callers_token", tier="quick"),
         dict(name="c20_try_resume_requeues_exactly_the_waiter", tier="quick", timeout=900),
         dict(name="c20_resume_dispatches_registered_tokens_only", tier="quick"),
+        dict(name="c20_every_round_polls_the_selector", tier="quick"),
     ],
     functions=["net::selector::mio_adapter::Poller::do_register", "Poller::do_reregister", "Poller::do_select",
                "<mio::event::Event as selector::Event>::get_token", "Selector::add_read_event", "Selector::register",
-               "Selector::select (bookkeeping tail)", "EventLoop::resume", "Scheduler::try_resume"],
+               "Selector::select (bookkeeping tail)", "EventLoop::resume", "Scheduler::try_resume", "EventLoop::wait_event"],
     assumptions=[
         "64-bit usize (mio::Token wraps a usize)",
         "mio contract (shim): an event for a source carries the Token and interest of its latest (re)registration; "
@@ -33,7 +34,7 @@ CONFIG = dict(
     ],
     bounds="none on the token domain (all 2^64 values); shim capacities: 2 registrations, 3 map entries (never reached by these obligations)",
     manifest=dict(
-        text="Proof over the full 64-bit token domain. Loop-free Kani harnesses drive the real Poller::do_register / do_reregister / add_read_event / select and the real Event::get_token against the mio contract and prove decode(encode(token)) == token, that an event for one descriptor never decodes to another descriptor's waiter, that the call which adds a second direction to a registered descriptor registers the token it was given (the event decodes to the waiter that registered last), and that a failed poll (EINTR or any errno) is reported, releases the poll guard and leaves the next poll able to deliver the pending event; and for the dispatch: EventLoop::resume hands a token to the scheduler exactly when a coroutine registered it (consuming the registration), and Scheduler::try_resume re-queues exactly the coroutine parked under that token, marks exactly its wait as answered and neither resumes nor changes any other parked coroutine. If the identity fails the event loop's lookup of the waiting coroutine misses and only the 10 ms timeout path can wake it - exactly the promptness clause. Tests only ever use small ids or never look at which path woke the coroutine.",
+        text="Proof over the full 64-bit token domain. Loop-free Kani harnesses drive the real Poller::do_register / do_reregister / add_read_event / select and the real Event::get_token against the mio contract and prove decode(encode(token)) == token, that an event for one descriptor never decodes to another descriptor's waiter, that the call which adds a second direction to a registered descriptor registers the token it was given (the event decodes to the waiter that registered last), and that a failed poll (EINTR or any errno) is reported, releases the poll guard and leaves the next poll able to deliver the pending event; and for the dispatch: EventLoop::resume hands a token to the scheduler exactly when a coroutine registered it (consuming the registration), and Scheduler::try_resume re-queues exactly the coroutine parked under that token, marks exactly its wait as answered and neither resumes nor changes any other parked coroutine; and every round of the loop (wait_event) polls the selector exactly once, also when the scheduler has used up the whole slice. If the identity fails the event loop's lookup of the waiting coroutine misses and only the 10 ms timeout path can wake it - exactly the promptness clause. Tests only ever use small ids or never look at which path woke the coroutine.",
         note="Trusted: mio shim (epoll contract as executable specification), dashmap/once_cell shims, 64-bit target, EventLoop::token -> coroutine id mapping read from source (TLS accessor, not executable under Kani); the dispatch EventLoop::resume -> Scheduler::try_resume is covered by two modular units (try_resume recorded in the first; the ready queue's push recorded and Coroutine::syscall represented by its C07 contract in the second); promptness itself (event vs. 10 ms time-out) is the consequence argued in the claim, not a timed measurement.",
         technique="contract-based deductive verification: Kani full-domain harness contracts on the real selector adapter against an assumed mio contract",
     ),
